@@ -504,3 +504,28 @@ def reachable(outputs, inputs) -> list[bool]:
         return [False] * len(inputs)
     gs = torch.autograd.grad(tot, inputs, retain_graph=True, allow_unused=True)
     return [g is not None for g in gs]
+
+
+def feature_nodes_chained(features) -> bool:
+    """True when the backward node of one feature is reachable from the (different) backward node of another feature.
+
+    torch's engine marks every node from which a captured node is reachable as 'needed': asking for the gradient of a
+    loss w.r.t. such features executes (and, with retain_graph=False, frees) the trunk nodes in between."""
+    fns = [f.grad_fn for f in features]
+    for i, start in enumerate(fns):
+        if start is None:
+            continue
+        targets = {id(fn) for j, fn in enumerate(fns) if j != i and fn is not None and fn is not start}
+        if not targets:
+            continue
+        seen, stack = {id(start)}, [start]
+        while stack:
+            n = stack.pop()
+            for child, _ in n.next_functions:
+                if child is None or id(child) in seen:
+                    continue
+                if id(child) in targets:
+                    return True
+                seen.add(id(child))
+                stack.append(child)
+    return False
